@@ -4,6 +4,7 @@ CONSTANTS
   Handles = {1, 2, 3}
   MaxAbs = 1
   WithStreams = TRUE
+  WithNested = TRUE
   GenDepth = 5
 CONSTRAINTS Small GenBound
 VIEW View_
